@@ -38,6 +38,8 @@ type Smt struct {
 	ufs      map[string]bool
 	fieldIDs map[string]int
 	eng      *Engine
+	defCache map[string]string
+	onDerive func(newName string, from []string)
 }
 
 func newSmt(eng *Engine, intMode bool) *Smt {
@@ -130,6 +132,20 @@ func (s *Smt) define(prefix, sortName, term string) string {
 	}
 	n := s.uniq(prefix)
 	s.decls = append(s.decls, fmt.Sprintf("(define-fun %s () %s %s)", n, sortName, term))
+	return n
+}
+
+// defineCached names a term once; later requests for the same term get the same name.
+func (s *Smt) defineCached(prefix, sortName, term string) string {
+	if s.defCache == nil {
+		s.defCache = map[string]string{}
+	}
+	key := sortName + "|" + term
+	if n, ok := s.defCache[key]; ok {
+		return n
+	}
+	n := s.define(prefix, sortName, term)
+	s.defCache[key] = n
 	return n
 }
 
@@ -420,6 +436,9 @@ func (h *Heap) lookup(cellSort string) string {
 				acc = fmt.Sprintf("(ite %s %s %s)", h.mconds[i], terms[i], acc)
 			}
 			t = h.smt.define(fmt.Sprintf("Hm%d_%s", h.id, k), h.arraySort(cellSort), acc)
+			if h.smt.onDerive != nil {
+				h.smt.onDerive(t, terms)
+			}
 		}
 	default:
 		t = h.next.lookup(cellSort)
